@@ -225,7 +225,7 @@ def run_coq_shards(tag, shard_texts, timeout=900):
             return None, "cannot parse: " + flat[-1000:]
         body = m.group(1)
         res = []
-        for a, b in re.findall(r"\(\[([\d; ]*)\], \[([\d; ]*)\]\)", body):
+        for a, b in re.findall(r"\(\s*\[([\d; ]*)\],\s*\[([\d; ]*)\]\s*\)", body):
             res.append(([int(x) for x in a.replace(";", " ").split()], [int(x) for x in b.replace(";", " ").split()]))
         if body.strip() == "[]":
             res = []
